@@ -1,0 +1,84 @@
+//go:build verif
+
+package rewriter
+
+import (
+	"fmt"
+	"log"
+	"path/filepath"
+	"strings"
+
+	"github.com/goghcrow/go-ast-matcher"
+	"github.com/goghcrow/go-imports"
+	"github.com/goghcrow/go-loader"
+	"github.com/goghcrow/go-matcher"
+)
+
+// VerifStatus reports a compiler panic for one file of one stage.
+type VerifStatus struct {
+	File  string
+	Stage string // "rewrite" | "optimize"
+	Panic string
+}
+
+// VerifCompile runs the same two stages as Compile (same rewriter, same optimizer,
+// same printer) but keeps the unoptimised stage in tmpDir instead of deleting it and
+// recovers from a compiler panic per file, so that one rejected file does not hide
+// the others of a batch. Verification hook only; not used by production code.
+func VerifCompile(srcDir, dstDir, tmpDir string, opts ...loader.Option) (st []VerifStatus) {
+	srcDir, err := filepath.Abs(srcDir)
+	panicIf(err)
+	dstDir = mustMkDir(dstDir)
+	tmpDir = mustMkDir(tmpDir)
+
+	guard := func(stage string, f *loader.File, fn func()) {
+		defer func() {
+			if r := recover(); r != nil {
+				st = append(st, VerifStatus{File: f.Filename, Stage: stage, Panic: fmt.Sprint(r)})
+			}
+		}()
+		fn()
+	}
+
+	resetLog()
+	log.SetPrefix("[rewrite] ")
+	r := mkRewriter(astmatcher.New(
+		loader.MustNew(srcDir, append(opts, loader.WithLoadDepts())...),
+		matcher.New(),
+	))
+	comment := fmt.Sprintf(fileComment, defaultBuildTag)
+	if coPkg := r.m.Loader.LookupPackage(pkgCoPath); coPkg != nil {
+		r.m.Loader.VisitAllFiles(func(f *loader.File) {
+			if !imports.Uses(f, coPkg.Types) {
+				return
+			}
+			guard("rewrite", f, func() {
+				r.rewriteFile(f, func(filename string, f *loader.File) {
+					filename = strings.ReplaceAll(filename, srcDir, tmpDir)
+					f.WriteWithComment(filename, comment)
+				})
+			})
+		})
+	}
+
+	log.SetPrefix("[optimize] ")
+	o := mkOptimizer(astmatcher.New(
+		loader.MustNew(tmpDir, append(opts, loader.WithLoadDepts(), loader.WithSuppressErrors())...),
+		matcher.New(),
+	))
+	if seqPkg := o.m.Loader.LookupPackage(pkgSeqPath); seqPkg != nil {
+		o.m.Loader.VisitAllFiles(func(f *loader.File) {
+			if !imports.Uses(f, seqPkg.Types) {
+				return
+			}
+			guard("optimize", f, func() {
+				o.optimizeImports(f)
+				o.optimizeDelayCall()
+				o.etaReduction()
+				filename := strings.ReplaceAll(f.Filename, tmpDir, dstDir)
+				f.WriteWithComment(filename, comment)
+			})
+		})
+	}
+	return st
+}
